@@ -60,15 +60,23 @@ func main() {
 			}
 			params[k] = v
 		}
-		os.Exit(checks.ExecOne(os.Args[2], os.Args[3], params, "/repo", "/verif"))
+		os.Exit(checks.ExecOne(os.Args[2], os.Args[3], params, envOr("VP_REPO", "/repo"), "/verif"))
 	case "replay":
 		if len(os.Args) < 3 {
 			fmt.Println("usage: vp replay <tape.json>")
 			os.Exit(2)
 		}
-		os.Exit(checks.ReplayCmd(os.Args[2], "/repo", "/verif"))
+		os.Exit(checks.ReplayCmd(os.Args[2], envOr("VP_REPO", "/repo"), "/verif"))
 	default:
 		fmt.Println("unknown command", os.Args[1])
 		os.Exit(2)
 	}
+}
+
+// envOr: debug override of the repository path for `vp exec` / `vp replay` (registered checks always use /repo).
+func envOr(k, d string) string {
+	if v := os.Getenv(k); v != "" {
+		return v
+	}
+	return d
 }
